@@ -1,6 +1,7 @@
 package families
 
 import (
+	"strings"
 	"verif/mc/clustermc"
 	"verif/mc/oracle"
 	"verif/mc/schedrun"
@@ -59,6 +60,36 @@ func limitQueues() []queueSetup {
 	}
 }
 
+// limitsReleasingScenarios: victim-eligible elastic workloads that already have a TERMINATING pod
+// (scaled down / evicted earlier) inside queues that sit at their limit or quota: a terminating pod is
+// not charged to the queue, so "evicting" it again must not make room under the limit.
+func limitsReleasingScenarios(tier string) []clustermc.Scenario {
+	el := func(q string) world.WL {
+		return world.WL{Queue: q, MinMember: 1, Pods: []world.PodSpec{{Shape: shG1, State: world.StRunning, Node: "n1"}, {Shape: shG1, State: world.StTerminating, Node: "n1"}}}
+	}
+	menu := []wlItem{
+		{"run1+term1-elastic-qa", el("qa")},
+		{"run1+term1-elastic-qb", el("qb")},
+		{"pend-g1-qa", world.WL{Queue: "qa", Pods: pods(1, shG1, "", "")}},
+		{"pend-g1-np-qa", world.WL{Queue: "qa", PC: "p100", Pods: pods(1, shG1, "", "")}},
+		{"pend-g1-p75-qa", world.WL{Queue: "qa", PC: "p75", Pods: pods(1, shG1, "", "")}},
+		{"pend-g1-np-qb", world.WL{Queue: "qb", PC: "p100", Pods: pods(1, shG1, "", "")}},
+		{"pend-gang2-qb", world.WL{Queue: "qb", MinMember: 2, Pods: pods(2, shG1, "", "")}},
+		{"run-g1-qa", world.WL{Queue: "qa", Pods: pods(1, shG1, world.StRunning, "n1")}},
+		{"run-g1-qb", world.WL{Queue: "qb", Pods: pods(1, shG1, world.StRunning, "n1")}},
+	}
+	lay := []nodeLayout{{"1n-4gpu", []world.NodeOpt{{Name: "n1", CPU: "16", Mem: "32Gi", GPUs: 4, GPUMemMiB: 40000}}},
+		{"1n-3gpu", []world.NodeOpt{{Name: "n1", CPU: "16", Mem: "32Gi", GPUs: 3, GPUMemMiB: 40000}}}}
+	cfgs := []schedrun.Config{{}, {Placement: "spread", NoConsolidation: true}}
+	var out []clustermc.Scenario
+	for _, sc := range wlScenarios(tier, menu, lay, limitQueues(), cfgs, 3, 4) {
+		if strings.Contains(sc.Name, "run1+term1") {
+			out = append(out, sc)
+		}
+	}
+	return out
+}
+
 func C08() *clustermc.Family {
 	return &clustermc.Family{
 		Property: "C08",
@@ -68,7 +99,7 @@ func C08() *clustermc.Family {
 				lay = append(lay, nodeLayout{"2n-2+2gpu", []world.NodeOpt{{Name: "n1", CPU: "16", Mem: "32Gi", GPUs: 2, GPUMemMiB: 40000}, {Name: "n2", CPU: "16", Mem: "32Gi", GPUs: 2, GPUMemMiB: 80000}}})
 			}
 			cfgs := []schedrun.Config{{}, {Placement: "spread", NoConsolidation: true}}
-			return wlScenarios(tier, limitsMenu(), lay, limitQueues(), cfgs, 3, 4)
+			return append(wlScenarios(tier, limitsMenu(), lay, limitQueues(), cfgs, 3, 4), limitsReleasingScenarios(tier)...)
 		},
 		Depth:   func(tier string) int { return 3 },
 		Env:     clustermc.EnvOpts{BindOK: true, Terminate: true},
